@@ -478,3 +478,101 @@ func replayUndispatch(cfg dispatchCfg, wantCalls, wantOut []string, raw any, out
 	}
 	return evals
 }
+
+// ------------------------------------------------------------------ functions for untyped values behind `any`
+
+func anyFuncOf(kind string, i int, log *[]int) (*jsonv2.Marshalers, *jsonv2.Unmarshalers) {
+	mark := func() []byte { *log = append(*log, i); return []byte(fmt.Sprintf(`"f%d"`, i)) }
+	switch kind {
+	case "bool":
+		return jsonv2.MarshalFunc(func(x bool) ([]byte, error) { return mark(), nil }),
+			jsonv2.UnmarshalFunc(func(b []byte, x *bool) error { mark(); *x = true; return nil })
+	case "string":
+		return jsonv2.MarshalFunc(func(x string) ([]byte, error) { return mark(), nil }),
+			jsonv2.UnmarshalFunc(func(b []byte, x *string) error { mark(); *x = fmt.Sprintf("f%d", i); return nil })
+	case "float64":
+		return jsonv2.MarshalFunc(func(x float64) ([]byte, error) { return mark(), nil }),
+			jsonv2.UnmarshalFunc(func(b []byte, x *float64) error { mark(); *x = float64(100 + i); return nil })
+	case "map":
+		return jsonv2.MarshalFunc(func(x map[string]any) ([]byte, error) { return mark(), nil }),
+			jsonv2.UnmarshalFunc(func(b []byte, x *map[string]any) error { mark(); *x = map[string]any{"f": float64(i)}; return nil })
+	case "slice":
+		return jsonv2.MarshalFunc(func(x []any) ([]byte, error) { return mark(), nil }),
+			jsonv2.UnmarshalFunc(func(b []byte, x *[]any) error { mark(); *x = []any{float64(i)}; return nil })
+	}
+	return jsonv2.MarshalFunc(func(x complex64) ([]byte, error) { return mark(), nil }),
+		jsonv2.UnmarshalFunc(func(b []byte, x *complex64) error { mark(); return nil })
+}
+
+// replay-anyf cases=<TLC out> out=<mismatches>: [funcs, valueKind, winner]
+func replayAnyF(args map[string]string) error {
+	out, err := newMismatchSink(argStr(args, "out", "/dev/null"))
+	if err != nil {
+		return err
+	}
+	defer out.close()
+	var cases, evals atomic.Int64
+	// containers are empty so that no inner key or element is itself a candidate for a function
+	vals := map[string]any{"bool": true, "string": "s", "float64": 1.5, "map": map[string]any{}, "slice": []any{}}
+	texts := map[string]string{"bool": `true`, "string": `"s"`, "float64": `1.5`, "map": `{}`, "slice": `[]`}
+	err = parallelLines(args["cases"], runtime.NumCPU(), func(line []byte) {
+		var rec []any
+		if err := jsonv2.Unmarshal(line, &rec); err != nil || len(rec) != 3 {
+			return
+		}
+		var kinds []string
+		for _, k := range rec[0].([]any) {
+			kinds = append(kinds, k.(string))
+		}
+		vk, winner := rec[1].(string), toInt(rec[2])
+		cases.Add(1)
+		type holder struct{ F any }
+		wraps := []struct {
+			name      string
+			wrap      func(x any) any
+			pre, post string
+			target    func() any
+		}{
+			{"field", func(x any) any { return holder{x} }, `{"F":`, "}", func() any { return new(holder) }},
+			{"array", func(x any) any { return [1]any{x} }, `[`, "]", func() any { return new([1]any) }},
+			{"ptrfield", func(x any) any { return &holder{x} }, `{"F":`, "}", func() any { return new(*holder) }},
+		}
+		for _, w := range wraps {
+			var log []int
+			var ms []*jsonv2.Marshalers
+			var us []*jsonv2.Unmarshalers
+			for i, k := range kinds {
+				m, u := anyFuncOf(k, i+1, &log)
+				ms, us = append(ms, m), append(us, u)
+			}
+			bad := func(dir, why string, got, want any) {
+				out.put(map[string]any{"prop": "C17", "family": "anyf", "case": rec, "dir": "replay", "direction": dir, "position": w.name, "why": why, "got": got, "want": want, "calls": log})
+			}
+			evals.Add(2)
+			got, merr := jsonv2.Marshal(w.wrap(vals[vk]), jsonv2.WithMarshalers(jsonv2.JoinMarshalers(ms...)))
+			want := w.pre + texts[vk] + w.post
+			wantLog := []int{}
+			if winner > 0 {
+				want = w.pre + fmt.Sprintf(`"f%d"`, winner) + w.post
+				wantLog = []int{winner}
+			}
+			if merr != nil || string(got) != want || !reflect.DeepEqual(append([]int{}, log...), wantLog) {
+				bad("marshal", "output", string(got)+fmt.Sprint(" err=", merr), want)
+			}
+			log = nil
+			uerr := jsonv2.Unmarshal([]byte(w.pre+texts[vk]+w.post), w.target(), jsonv2.WithUnmarshalers(jsonv2.JoinUnmarshalers(us...)))
+			if uerr != nil {
+				bad("unmarshal", "error", uerr.Error(), nil)
+			} else if !reflect.DeepEqual(append([]int{}, log...), wantLog) {
+				bad("unmarshal", "calls", log, wantLog)
+			}
+		}
+	})
+	if err != nil {
+		return err
+	}
+	summary(map[string]any{"cases": cases.Load(), "evaluations": evals.Load(), "mismatches": out.n})
+	return nil
+}
+
+func init() { commands["replay-anyf"] = replayAnyF }
